@@ -505,6 +505,61 @@ BRIDGE = {
                      "file_config_unknown_key_resolved", "file_config_unknown_key_counterexample"],
         "props": ["C16"],
     },
+    "Rough.Props.GenCodec": {
+        "rs_modules": ['Message'],
+        "namespace": "Rough.Props.GenCore",
+        "theorems": ['GEN_decode_encode', 'GEN_encode_decode', 'GEN_encode_framed', 'GEN_encoded_size', 'GEN_from_bytes_total', 'GEN_payload'],
+        "props": ['C05', 'C06'],
+    },
+    "Rough.Props.GenRequest": {
+        "rs_modules": ['Request', 'Message'],
+        "namespace": "Rough.Props.GenCore",
+        "theorems": ['GEN_request_total', 'GEN_request_only_wellformed', 'GEN_request_spec', 'GEN_request_only_if'],
+        "props": ['C07', 'C12'],
+    },
+    "Rough.Props.GenMerkle": {
+        "rs_modules": ['Merkle'],
+        "namespace": "Rough.Props.GenCore",
+        "theorems": ['GEN_merkle_complete', 'GEN_merkle_binding'],
+        "props": ['C04'],
+    },
+    "Rough.Props.GenKeys": {
+        "rs_modules": ['Online', 'Message'],
+        "namespace": "Rough.Props.GenCore",
+        "theorems": ['GEN_midpoint_classic', 'GEN_midpoint_ietf', 'GEN_srep_midpoint'],
+        "props": ['C11'],
+    },
+    "Rough.Props.GenSign": {
+        "rs_modules": ['Sign'],
+        "namespace": "Rough.Props.GenCore",
+        "theorems": ['GEN_signer', 'GEN_signer_no_carry_over', 'GEN_signer_chunking', 'GEN_verifier'],
+        "props": ['C13'],
+    },
+    "Rough.Props.GenEnvelope": {
+        "rs_modules": ['Envelope'],
+        "namespace": "Rough.Props.GenCore",
+        "theorems": ['GEN_decrypt_seed_total', 'GEN_decrypt_round_trip', 'GEN_decrypt_tamper', 'GEN_decrypt_wrong_key'],
+        "props": ['C14'],
+    },
+    "Rough.Props.GenClient": {
+        "rs_modules": ['Client', 'Message', 'Merkle'],
+        "namespace": "Rough.Props.GenCore",
+        "theorems": ['GEN_client_sound'],
+        "props": ['C01'],
+    },
+    "Rough.Props.GenStats": {
+        "rs_modules": ['StatsCore', 'StatsPer'],
+        "namespace": "Rough.Props.GenCore",
+        "theorems": ['GEN_stats_conservation'],
+        "props": ['C17'],
+    },
+    "Rough.Props.GenConfig": {
+        "rs_modules": ["EnvConfig", "FileConfig", "Config"],
+        "namespace": "Rough.Props.GenConfig",
+        "theorems": ["file_getters", "env_getters", "GEN_start_file", "GEN_start_env", "GEN_file_effective_is_written",
+                     "GEN_file_out_of_range_refused", "GEN_env_missing_required", "GEN_env_out_of_range_refused"],
+        "props": ["C16"],
+    },
     "Rough.Bridge.Stats": {
         "rs_modules": ["StatsCore", "StatsAgg", "StatsPer"],
         "theorems": ["uniq_init", "uniq_record", "per_client_record_eq", "per_client_clear_eq", "per_client_totals_eq",
@@ -551,6 +606,15 @@ _BRIDGE_WHAT = {
     "Rough.Bridge.ProcessEvents": "server.rs process_events / handle_health_check / send_client_stats (poll tokens, the three event arms, the backlog flag and the post-loop service, the accept loop, publication of the recorder's entries) refine the model EventLoop.processEvents the LOOP_* theorems are about",
     "Rough.Props.GenLoop": "server.rs process_events as regenerated from the source returns normally from every invariant-satisfying state for every token set, queue, clock, drawable fault injection and log level (GEN_process_events_returns) and puts at most 16*batch_size datagrams on the wire per call (GEN_process_events_bounded)",
     "Rough.Bridge.ConfigLoaders": "config/environment.rs EnvironmentConfig::new and config/file.rs FileConfig::new (every documented key: which text is refused — Err or panic — and the field value otherwise equal the model's envSet / fileSet / loadFile, for every process environment and every YAML mapping; no or several documents, unknown keys)",
+    "Rough.Props.GenCodec": "stated directly about the regenerated code (bridge composed with the model-level theorem): codec round trip and canonicity of RtMessage::encode / from_bytes as regenerated, decoder totality, values are slices of the input",
+    "Rough.Props.GenRequest": "stated directly about the regenerated code (bridge composed with the model-level theorem): the regenerated nonce_from_request never panics, accepts only well-formed 1024..1500-byte requests and agrees with the reference classification (must / may / no)",
+    "Rough.Props.GenMerkle": "stated directly about the regenerated code (bridge composed with the model-level theorem): reset / push_leaf / compute_root / get_paths / root_from_paths as regenerated: every issued path recomputes the root, from any prior tree state; binding up to a hash collision",
+    "Rough.Props.GenKeys": "stated directly about the regenerated code (bridge composed with the model-level theorem): classic_midp / rfc_midp / make_srep as regenerated: MIDP = floor(clock / unit), RADI, ROOT, VER / VERS, signature over the context-prefixed SREP",
+    "Rough.Props.GenSign": "stated directly about the regenerated code (bridge composed with the model-level theorem): MsgSigner / MsgVerifier as regenerated: k-th signature = one-shot signature of the k-th message, no carry-over, chunking-independent, verify = one-shot verify",
+    "Rough.Props.GenEnvelope": "stated directly about the regenerated code (bridge composed with the model-level theorem): decrypt_seed as regenerated: never panics, round trip with the model's encrypt, a different blob or key yields the seed only through an AEAD opening",
+    "Rough.Props.GenClient": "stated directly about the regenerated code (bridge composed with the model-level theorem): the client's receive_response / ResponseHandler::new / extract_time as regenerated accept only responses that are authentic for this request under the pinned key",
+    "Rough.Props.GenStats": "stated directly about the regenerated code (bridge composed with the model-level theorem): PerClientStats as regenerated: every event counted once or overflowed, bounded number of tracked addresses",
+    "Rough.Props.GenConfig": "C16 stated about the regenerated loaders, ServerConfig getters and validator composed as main composes them: effective = written, out-of-range refused, missing required refused (GEN_start_file / GEN_start_env = the model start)",
     "Rough.Bridge.SendResponses": "responder.rs send_responses (the whole batch loop incl. failing sends, fault injection, lazily evaluated debug! arguments, statistics events)",
 }
 for _pid, _cfg in PROPS.items():
